@@ -1,6 +1,27 @@
 import IOptProofs.ConsoleInterpDefs
 /-!
 # What the console listener, taken from the SOURCE TEXT, prints
+
+`IOptGen/ConsoleSrc.lean` (regenerated on every run from `iOpt/method/listener.py` and
+`iOpt/output_system/console/console_output.py`) holds the statement trees of `ConsoleFullOutputListener` and
+`FunctionConsoleFullOutput` and the `print` statements of `ConsoleOutputer`; `IOptProofs/ConsoleInterpDefs.lean` interprets them,
+generically, with SYMBOLIC values (a printed datum is a `FieldRef`: which field of which callback argument).  Here, about the
+GENERATED material (`genProg`):
+
+* `printResult_render`, `printBest_render(_num)`, `printIter_render_num`, `printInit_render`: each printer, for ARBITRARY fields in its
+  argument positions: which position appears under which label (positional binding of the arguments to the parameter list, then
+  the parameter named in each `print`);
+* `printFinalResult_run`, `printBestPointInfo_run`, `printIterPointInfo_run`: the methods of `FunctionConsoleFullOutput`, from ANY
+  object state (only `self.__outputer` and the counter `self.iterNum` are read): which fields of the `solution` / `savedNewPoints`
+  PARAMETER go to which position; the counter is incremented once per call; the `%`-test of `printBestPointInfo`;
+* `onMethodStop_run`, `onEndIteration_custom/_full/_other`, `beforeMethodStart_run`, `newListener_run`: the callbacks of the listener;
+  `Started` is the part of the object state they read, `Started.bump` its preservation;
+* `onEndIterations_custom/_full/_other`: `j` notifications in a row (the schedule of mode `'custom'`, the numbering of mode `'full'`);
+* `entries_*`, `shown_*`: the reports as (label, field) lists and as read against the callback's arguments;
+* `sites_*`, `site_solution_arg`, `notify_*`: the call sites of the notifications in the generated trees of `process.py`;
+* `Examples`: runs on the generated trees, and seeded edits that are stuck or render another report.
+
+NOT covered: `str.format` rendering (padding, rounding), the layout arithmetic, the `print` to `sys.stdout` itself.
 -/
 
 namespace ConsoleInterp
@@ -232,4 +253,364 @@ theorem onEndIteration_other_runner (d : Nat) (st : St) (m : String) (hf : m ≠
       consoleFullOutputListener_OnEndIteration, execList, execStmt, condTable, List.lookup_cons_self, evalCond,
       List.lookup, BEq.rfl, hm, hf', String.reduceBEq, hc', hr']
 
+/-! ### the object state: attributes, and what `BeforeMethodStart` leaves -/
+
+theorem Heap.lookup_set_same (h : Heap) (k : Obj × String) (v : Val) : (h.set k v).lookup k = some v := by
+  induction h with
+  | nil => simp [Heap.set]
+  | cons kv t ih =>
+    obtain ⟨k', v'⟩ := kv
+    by_cases hk : k' = k
+    · simp [Heap.set, hk]
+    · have : (k == k') = false := by simp [Ne.symm hk]
+      simp [Heap.set, hk, List.lookup, this, ih]
+
+theorem Heap.lookup_set_ne (h : Heap) (k k' : Obj × String) (v : Val) (hne : k' ≠ k) :
+    (h.set k v).lookup k' = h.lookup k' := by
+  induction h with
+  | nil =>
+    have : (k' == k) = false := by simp [hne]
+    simp [Heap.set, List.lookup, this]
+  | cons kv t ih =>
+    obtain ⟨k0, v0⟩ := kv
+    by_cases hk : k0 = k
+    · subst hk
+      have : (k' == k0) = false := by simp [hne]
+      simp [Heap.set, List.lookup, this]
+    · by_cases hk' : k' = k0
+      · subst hk'
+        simp [Heap.set, hk]
+      · have : (k' == k0) = false := by simp [hk']
+        simp [Heap.set, hk, List.lookup, this, ih]
+
+theorem Heap.get_set_same (h : Heap) (o : Obj) (a : String) (v : Val) : (h.set (o, a) v).get o a = some v :=
+  Heap.lookup_set_same h (o, a) v
+
+theorem Heap.get_set_ne (h : Heap) (o o' : Obj) (a a' : String) (v : Val) (hne : (o', a') ≠ (o, a)) :
+    (h.set (o, a) v).get o' a' = h.get o' a' :=
+  Heap.lookup_set_ne h (o, a) (o', a') v hne
+
+/-- the attributes of a listener after `__init__`, with `fc` in `self.__fcfo` -/
+def listenerHeap (mode : String) (n : Nat) (fc : Val) : Heap :=
+  [((.listener, "__fcfo"), fc), ((.listener, "mode"), .str mode), ((.listener, "iters"), .nat n)]
+
+/-- the attributes of the three objects after `BeforeMethodStart`, the counter being `k` -/
+def startedHeap (mode : String) (n k : Nat) : Heap :=
+  listenerHeap mode n (.obj .fcfo) ++
+    [((.fcfo, "problem"), .problem), ((.fcfo, "parameters"), .parameters), ((.fcfo, "__outputer"), .obj .outputer),
+     ((.fcfo, "iterNum"), .nat k)]
+
+/-- the block printed by `BeforeMethodStart` -/
+def initReport : List Line := initLines .eps .r .epsR .itersLimit .nObjectives .nConstraints
+
+/-- **`ConsoleFullOutputListener(mode, iters)`, generated tree of `__init__`** -/
+theorem newListener_run (mode : String) (n : Nat) :
+    newListener genProg mode n = some { heap := listenerHeap mode n .none_, out := [] } := rfl
+
+set_option maxRecDepth 8000 in
+/-- **`BeforeMethodStart(method)`, generated trees** (the constructor of `FunctionConsoleFullOutput` through the tree of ITS
+`__init__`): on a fresh listener it creates the `FunctionConsoleFullOutput` on `method.task.problem` / `method.parameters` with a
+`ConsoleOutputer` and the counter `1`, and prints the task description: dimension, bounds, function counts, `eps`, `r`, `epsR`,
+`itersLimit`, each under its own label. -/
+theorem beforeMethodStart_run (mode : String) (n : Nat) (out : List Line) :
+    beforeMethodStart genProg { heap := listenerHeap mode n .none_, out := out } =
+      some { heap := startedHeap mode n 1, out := out ++ initReport } := rfl
+
+/-- construction followed by `BeforeMethodStart` -/
+theorem start_run (mode : String) (n : Nat) :
+    (newListener genProg mode n).bind (beforeMethodStart genProg) =
+      some { heap := startedHeap mode n 1, out := initReport } := by
+  rw [newListener_run, Option.bind_some, beforeMethodStart_run, List.nil_append]
+
+/-- the part of the object state that the later callbacks read -/
+structure Started (mode : String) (n k : Nat) (h : Heap) : Prop where
+  fcfo : h.get .listener "__fcfo" = some (.obj .fcfo)
+  mode : h.get .listener "mode" = some (.str mode)
+  iters : h.get .listener "iters" = some (.nat n)
+  outputer : h.get .fcfo "__outputer" = some (.obj .outputer)
+  iterNum : h.get .fcfo "iterNum" = some (.nat k)
+
+theorem started_startedHeap (mode : String) (n k : Nat) : Started mode n k (startedHeap mode n k) :=
+  ⟨rfl, rfl, rfl, rfl, rfl⟩
+
+theorem Started.bump {mode : String} {n k : Nat} {h : Heap} (hS : Started mode n k h) (k' : Nat) :
+    Started mode n k' (h.set (.fcfo, "iterNum") (.nat k')) where
+  fcfo := by rw [Heap.get_set_ne _ _ _ _ _ _ (by decide)]; exact hS.fcfo
+  mode := by rw [Heap.get_set_ne _ _ _ _ _ _ (by decide)]; exact hS.mode
+  iters := by rw [Heap.get_set_ne _ _ _ _ _ _ (by decide)]; exact hS.iters
+  outputer := by rw [Heap.get_set_ne _ _ _ _ _ _ (by decide)]; exact hS.outputer
+  iterNum := Heap.get_set_same _ _ _ _
+
+/-! ### the callbacks on a started listener -/
+
+/-- the final report is printed whatever the mode, the period and the counter -/
+theorem onMethodStop_started {mode : String} {n k : Nat} (st : St) (hS : Started mode n k st.heap) :
+    onMethodStop genProg st = some { st with out := st.out ++ finalReport } :=
+  onMethodStop_run st hS.fcfo hS.outputer
+
+theorem onEndIteration_custom {n k : Nat} (hn : n ≠ 0) (st : St) (hS : Started "custom" n k st.heap) :
+    onEndIteration genProg st =
+      some { heap := st.heap.set (.fcfo, "iterNum") (.nat (k+1)), out := st.out ++ customOut n k } :=
+  onEndIteration_custom_runner 0 st n k hn hS.fcfo hS.mode hS.iters hS.outputer hS.iterNum
+
+theorem onEndIteration_full {n k : Nat} (st : St) (hS : Started "full" n k st.heap) :
+    onEndIteration genProg st =
+      some { heap := st.heap.set (.fcfo, "iterNum") (.nat (k+1)), out := st.out ++ iterLines .newPoint .newValue (.num k) } :=
+  onEndIteration_full_runner 0 st k hS.fcfo hS.mode hS.outputer hS.iterNum
+
+theorem onEndIteration_other {mode : String} {n k : Nat} (hf : mode ≠ "full") (hc : mode ≠ "custom") (st : St)
+    (hS : Started mode n k st.heap) : onEndIteration genProg st = some st :=
+  onEndIteration_other_runner 1 st mode hf hc hS.mode
+
+/-- what `j` notifications print in mode `'custom'` when the counter starts at `k` -/
+def customOuts (n k : Nat) : Nat → List Line
+  | 0 => []
+  | j + 1 => customOuts n k j ++ customOut n (k + j)
+
+/-- what `j` notifications print in mode `'full'` when the counter starts at `k` -/
+def fullOuts (k : Nat) : Nat → List Line
+  | 0 => []
+  | j + 1 => fullOuts k j ++ iterLines .newPoint .newValue (.num (k + j))
+
+/-- **the `%`-schedule of mode `'custom'`**: `j` notifications on a listener whose counter is `k` advance the counter to `k + j` and
+print, for each `i < j`, the block of `printBest` with "current iteration # " `= k + i` iff `n` divides `k + i`. -/
+theorem onEndIterations_custom {n : Nat} (hn : n ≠ 0) (k : Nat) (st : St) (hS : Started "custom" n k st.heap) (j : Nat) :
+    ∃ st', onEndIterations genProg j st = some st' ∧ Started "custom" n (k + j) st'.heap ∧
+      st'.out = st.out ++ customOuts n k j := by
+  induction j with
+  | zero => exact ⟨st, rfl, hS, by simp [customOuts]⟩
+  | succ j ih =>
+    obtain ⟨st', h1, hS', ho⟩ := ih
+    refine ⟨{ heap := st'.heap.set (.fcfo, "iterNum") (.nat (k + j + 1)), out := st'.out ++ customOut n (k + j) }, ?_,
+      hS'.bump (k + j + 1), ?_⟩
+    · simp only [onEndIterations, h1]
+      exact onEndIteration_custom hn st' hS'
+    · simp only [ho, customOuts, List.append_assoc]
+
+theorem onEndIterations_full {n : Nat} (k : Nat) (st : St) (hS : Started "full" n k st.heap) (j : Nat) :
+    ∃ st', onEndIterations genProg j st = some st' ∧ Started "full" n (k + j) st'.heap ∧
+      st'.out = st.out ++ fullOuts k j := by
+  induction j with
+  | zero => exact ⟨st, rfl, hS, by simp [fullOuts]⟩
+  | succ j ih =>
+    obtain ⟨st', h1, hS', ho⟩ := ih
+    refine ⟨{ heap := st'.heap.set (.fcfo, "iterNum") (.nat (k + j + 1)),
+              out := st'.out ++ iterLines .newPoint .newValue (.num (k + j)) }, ?_, hS'.bump (k + j + 1), ?_⟩
+    · simp only [onEndIterations, h1]
+      exact onEndIteration_full st' hS'
+    · simp only [ho, fullOuts, List.append_assoc]
+
+theorem onEndIterations_other {mode : String} {n k : Nat} (hf : mode ≠ "full") (hc : mode ≠ "custom") (st : St)
+    (hS : Started mode n k st.heap) (j : Nat) : onEndIterations genProg j st = some st := by
+  induction j with
+  | zero => rfl
+  | succ j ih => simp only [onEndIterations, ih]; exact onEndIteration_other hf hc st hS
+
+/-! ### what a reader sees -/
+
+theorem entries_finalReport : entries finalReport =
+    [("global iteration count: ", .nGlobal), ("local iteration count: ", .nLocal), ("solving time: ", .time),
+     ("solution point: ", .point), ("solution value: ", .value), ("accuracy: ", .accuracy)] := by decide
+
+theorem entries_bestLines (k : Nat) : entries (bestLines .nGlobal .nLocal .accuracy .point .value (.num k)) =
+    [("current iteration # ", .num k), ("global iteration count: ", .nGlobal), ("local iteration count: ", .nLocal),
+     ("current best point: ", .point), ("current best value: ", .value), ("currant accuracy: ", .accuracy)] := rfl
+
+theorem entries_iterLines (k : Nat) : entries (iterLines .newPoint .newValue (.num k)) =
+    [("", .num k), ("", .newValue), ("", .newPoint)] := rfl
+
+theorem entries_initReport : entries initReport =
+    [("dimension: ", .dim), ("bounds: ", .boundsString), ("objective-function count: ", .nObjectives),
+     ("constraint-function count: ", .nConstraints), ("eps: ", .eps), ("r: ", .r), ("epsR: ", .epsR),
+     ("itersLimit: ", .itersLimit)] := by decide
+
+/-- the final report, read against the arguments of the callback: the data of the solution HANDED OVER -/
+theorem shown_finalReport {V P : Type} (a : Args V P) : shownEntries a finalReport =
+    [("global iteration count: ", .nat a.solution.nGlobal), ("local iteration count: ", .nat a.solution.nLocal),
+     ("solving time: ", .val a.solution.time), ("solution point: ", .pt a.solution.point),
+     ("solution value: ", .val a.solution.value), ("accuracy: ", .val a.solution.accuracy)] := rfl
+
+theorem shown_bestLines {V P : Type} (a : Args V P) (k : Nat) :
+    shownEntries a (bestLines .nGlobal .nLocal .accuracy .point .value (.num k)) =
+    [("current iteration # ", .nat k), ("global iteration count: ", .nat a.solution.nGlobal),
+     ("local iteration count: ", .nat a.solution.nLocal), ("current best point: ", .pt a.solution.point),
+     ("current best value: ", .val a.solution.value), ("currant accuracy: ", .val a.solution.accuracy)] := rfl
+
+theorem shown_iterLines {V P : Type} (a : Args V P) (k : Nat) :
+    shownEntries a (iterLines .newPoint .newValue (.num k)) = [("", .nat k), ("", .val a.newValue), ("", .pt a.newPoint)] := rfl
+
+/-! ### the call sites in `process.py` -/
+
+/-- the only notification in `Solve` -/
+theorem sites_solve : sitesList Gen.ProcSrc.solve =
+    [("listener.OnMethodStop", ["self.searchData", "self.GetResults()", "status"])] := by decide
+
+/-- the notifications in `DoGlobalIteration` -/
+theorem sites_doGlobalIteration : sitesList Gen.ProcSrc.doGlobalIteration =
+    [("listener.BeforeMethodStart", ["self.method"]), ("listener.OnEndIteration", ["savedNewPoints", "self.GetResults()"])] := by
+  decide
+
+/-- no notification elsewhere in `process.py` -/
+theorem sites_rest : sitesList Gen.ProcSrc.doLocalRefinement = [] ∧ sitesList Gen.ProcSrc.getResults = [] ∧
+    sitesList Gen.ProcSrc.problemCalculate = [] := by decide
+
+/-- at both call sites the parameter `solution` of the callback receives the expression `self.GetResults()` -/
+theorem site_solution_arg :
+    siteArgFor ("listener.OnMethodStop", ["self.searchData", "self.GetResults()", "status"]) "solution" = some "self.GetResults()" ∧
+    siteArgFor ("listener.OnEndIteration", ["savedNewPoints", "self.GetResults()"]) "solution" = some "self.GetResults()" := by
+  decide
+
+/-- the notifications as issued at the call sites are the callbacks run on the opaque arguments -/
+theorem notify_stop (st : St) :
+    notify genProg ("listener.OnMethodStop", ["self.searchData", "self.GetResults()", "status"]) st = onMethodStop genProg st := rfl
+
+theorem notify_end (st : St) :
+    notify genProg ("listener.OnEndIteration", ["savedNewPoints", "self.GetResults()"]) st = onEndIteration genProg st := rfl
+
+theorem notify_before (st : St) :
+    notify genProg ("listener.BeforeMethodStart", ["self.method"]) st = beforeMethodStart genProg st := rfl
+
 end ConsoleInterp
+
+/-! ## Non-vacuity, and what the ties exclude: runs of the interpreter on the generated trees and on edited trees -/
+
+namespace ConsoleInterp.Examples
+open Gen.ProcSrc Gen.Console
+
+/-- a started listener (mode `'result'`, nothing printed yet) -/
+def S0 : St := { heap := startedHeap "result" 100 1, out := [] }
+
+/-- the interpreter RUN on the generated trees: `__init__`, `BeforeMethodStart`, four `OnEndIteration` in mode `'custom'` with
+period 2, `OnMethodStop`: the init block, the best-point blocks numbered 2 and 4, the final report; the counter ends at 5 -/
+example :
+    ((((newListener genProg "custom" 2).bind (beforeMethodStart genProg)).bind (onEndIterations genProg 4)).bind
+        (onMethodStop genProg)) =
+      some { heap := startedHeap "custom" 2 5,
+             out := initReport ++ bestLines .nGlobal .nLocal .accuracy .point .value (.num 2) ++
+               bestLines .nGlobal .nLocal .accuracy .point .value (.num 4) ++ finalReport } := by decide +kernel
+
+/-- mode `'full'`: one line per notification, numbered 1, 2, 3 -/
+example :
+    (((newListener genProg "full" 100).bind (beforeMethodStart genProg)).bind (onEndIterations genProg 3)).map (entries ·.out) =
+      some (entries initReport ++ [("", .num 1), ("", .newValue), ("", .newPoint), ("", .num 2), ("", .newValue), ("", .newPoint),
+        ("", .num 3), ("", .newValue), ("", .newPoint)]) := by decide +kernel
+
+/-- mode `'result'`: the notifications print nothing; the final report is the whole output after the init block -/
+example :
+    ((((newListener genProg "result" 100).bind (beforeMethodStart genProg)).bind (onEndIterations genProg 7)).bind
+        (onMethodStop genProg)).map (·.out) = some (initReport ++ finalReport) := by decide +kernel
+
+/-- the tie theorems instantiated (their hypotheses hold on the state that `BeforeMethodStart` leaves) -/
+example := onMethodStop_started S0 (started_startedHeap "result" 100 1)
+example := onEndIterations_custom (n := 3) (by decide) 1 { heap := startedHeap "custom" 3 1 } (started_startedHeap "custom" 3 1) 10
+
+/-- a listener that was never told `BeforeMethodStart` (attached after the first iteration): `self.__fcfo` is `None`, every later
+callback is stuck (Python: `AttributeError: 'NoneType' object has no attribute 'printFinalResult'`) -/
+example : (newListener genProg "result" 100).bind (onMethodStop genProg) = none ∧
+    (newListener genProg "full" 100).bind (onEndIteration genProg) = none ∧
+    (newListener genProg "result" 100).bind (onEndIteration genProg) = newListener genProg "result" 100 := by decide +kernel
+
+/-- mode `'custom'` with `iters = 0`: stuck (Python: `ZeroDivisionError` in `self.iterNum % iters`) -/
+example : ((newListener genProg "custom" 0).bind (beforeMethodStart genProg)).bind (onEndIteration genProg) = none := by
+  decide +kernel
+
+/-- the chain needs two call levels; with one, the callback cannot call the method of `FunctionConsoleFullOutput` -/
+example : runner genProg 1 consoleFullOutputListener_OnMethodStopParams consoleFullOutputListener_OnMethodStop
+    (.obj .listener) [.searchData, .solution, .field .status] S0 = none := by decide +kernel
+
+/-- arity mismatch at the call site is stuck: `OnMethodStop(solution, status)` -/
+example : callback genProg consoleFullOutputListener_OnMethodStopParams consoleFullOutputListener_OnMethodStop
+    [.solution, .field .status] S0 = none := by decide +kernel
+
+/-! ### seeded edits -/
+
+/-- replace a method of the program -/
+def withMeth (name : String) (recv : List Sel) (c : Callee) : Prog :=
+  { genProg with meths := (name, (recv, c)) :: genProg.meths }
+
+/-- (1) `printFinalResult` passing `numberOfLocalTrials` and `numberOfGlobalTrials` in the other order -/
+def printFinalResultSwapped : List Stmt :=
+  [
+    .assign "bestTrialPoint" "solution.bestTrials[0].point.floatVariables",
+    .assign "bestTrialValue" "solution.bestTrials[0].functionValues[0].value",
+    .call [] "self.__outputer.printResult" ["status", "solution.numberOfLocalTrials", "solution.numberOfGlobalTrials", "solution.solvingTime", "solution.solutionAccuracy", "bestTrialPoint", "bestTrialValue"]]
+
+/-- … the two counts appear under each other's label -/
+example : (onMethodStop (withMeth "self.__fcfo.printFinalResult" [.attr "__fcfo"]
+      (.proc .fcfo functionConsoleFullOutput_printFinalResultParams printFinalResultSwapped)) S0).map (entries ·.out) =
+    some [("global iteration count: ", .nLocal), ("local iteration count: ", .nGlobal), ("solving time: ", .time),
+      ("solution point: ", .point), ("solution value: ", .value), ("accuracy: ", .accuracy)] := by decide +kernel
+
+/-- (2) `printFinalResult` reading a cached trial `self.best` instead of `solution.bestTrials[0]` -/
+def printFinalResultCached : List Stmt :=
+  [
+    .assign "bestTrialPoint" "self.best.point.floatVariables",
+    .assign "bestTrialValue" "self.best.functionValues[0].value",
+    .call [] "self.__outputer.printResult" ["status", "solution.numberOfGlobalTrials", "solution.numberOfLocalTrials", "solution.solvingTime", "solution.solutionAccuracy", "bestTrialPoint", "bestTrialValue"]]
+
+/-- … stuck: the expression is not a field of the argument -/
+example : onMethodStop (withMeth "self.__fcfo.printFinalResult" [.attr "__fcfo"]
+      (.proc .fcfo functionConsoleFullOutput_printFinalResultParams printFinalResultCached)) S0 = none := by decide +kernel
+
+/-- (3) `printResult` printing `numberOfLocalTrials` under the label "global iteration count: " -/
+def printResultWrongLabel : Printer :=
+  { printResultP with prints := printResultPrints.map fun p =>
+      if p.args = ["'global iteration count: '", "numberOfGlobalTrials"] then
+        { p with args := ["'global iteration count: '", "numberOfLocalTrials"] } else p }
+
+/-- … the local count is shown twice, the global count nowhere -/
+example : (onMethodStop (withMeth "self.__outputer.printResult" [.attr "__outputer"] (.printer printResultWrongLabel)) S0).map
+      (entries ·.out) =
+    some [("global iteration count: ", .nLocal), ("local iteration count: ", .nLocal), ("solving time: ", .time),
+      ("solution point: ", .point), ("solution value: ", .value), ("accuracy: ", .accuracy)] := by decide +kernel
+
+/-- (4) `OnMethodStop` passing `status, solution` in the other order -/
+def onMethodStopSwapped : List Stmt :=
+  [
+    .call [] "self.__fcfo.printFinalResult" ["status", "solution"]]
+
+/-- … stuck: `printFinalResult` then reads `bestTrials[0]` of the status flag -/
+example : callback genProg consoleFullOutputListener_OnMethodStopParams onMethodStopSwapped
+    [.searchData, .solution, .field .status] S0 = none := by decide +kernel
+
+/-- (5) the call site passing the search data where the solution belongs (`OnMethodStop(solution, searchData, status)`) -/
+example : callback genProg consoleFullOutputListener_OnMethodStopParams consoleFullOutputListener_OnMethodStop
+    [.solution, .searchData, .field .status] S0 = none := by decide +kernel
+
+/-- (6) `printBestPointInfo` without the increment of the counter: every notification prints (period 1) or none does -/
+def printBestPointInfoNoIncrement : List Stmt :=
+  [
+    .ite "self.iterNum % iters != 0" [] [
+      .assign "bestTrialPoint" "solution.bestTrials[0].point.floatVariables",
+      .assign "bestTrialValue" "solution.bestTrials[0].functionValues[0].value",
+      .call [] "self.__outputer.printBest" ["solution.numberOfGlobalTrials", "solution.numberOfLocalTrials", "solution.solutionAccuracy", "bestTrialPoint", "bestTrialValue", "self.iterNum"]]]
+
+example : (onEndIterations (withMeth "self.__fcfo.printBestPointInfo" [.attr "__fcfo"]
+      (.proc .fcfo functionConsoleFullOutput_printBestPointInfoParams printBestPointInfoNoIncrement)) 4
+      { heap := startedHeap "custom" 2 1 }).map (·.out) = some [] ∧
+    (onEndIterations genProg 4 { heap := startedHeap "custom" 2 1 }).map (·.out) = some (customOuts 2 1 4) ∧
+    customOuts 2 1 4 ≠ [] := by decide +kernel
+
+/-- (7) `OnEndIteration` in mode `'custom'` handing over a solution kept from an earlier call (`self.last`) -/
+def onEndIterationCached : List Stmt :=
+  [
+    .ite "self.mode == 'full'" [
+      .call [] "self.__fcfo.printIterPointInfo" ["savedNewPoints"]] [
+      .ite "self.mode == 'custom'" [
+        .call [] "self.__fcfo.printBestPointInfo" ["self.last", "self.iters"]] [
+        .ite "self.mode == 'result'" [] []]]]
+
+example : callback genProg consoleFullOutputListener_OnEndIterationParams onEndIterationCached
+    [.savedNewPoints, .solution] { heap := startedHeap "custom" 1 1 } = none := by decide +kernel
+
+/-- statements outside the tables are not silently accepted -/
+example : callback genProg ["self"] [.other "print('x')"] [] S0 = none ∧
+    callback genProg ["self"] [.assign "self.iterNum" "0"] [] S0 = none ∧
+    callback genProg ["self"] [.assign "dim" "1"] [] S0 = none ∧
+    callback genProg ["self"] [.ret "None"] [] S0 = none ∧
+    renderPrinter { printResultP with other := ["dim = 0"] } [.field .status, .field .nGlobal, .field .nLocal, .field .time,
+      .field .accuracy, .field .point, .field .value] = none ∧
+    renderPrinter { printResultP with locals := [("bestTrialValue", "0")] } [.field .status, .field .nGlobal, .field .nLocal,
+      .field .time, .field .accuracy, .field .point, .field .value] = none := by decide +kernel
+
+end ConsoleInterp.Examples
